@@ -60,8 +60,10 @@ def _bump(draw, v):
         return v + draw(st.sampled_from([1, -1]))
     if isinstance(v, float):
         # (the last ones stay inside the validation tolerance: declared values that are merely "close")
-        return draw(st.sampled_from([v + 1.0, v - 1.0, v + 0.25, v * (1 + 8e-10) if v else 1e-300,
-                                     v * (1 - 8e-10) if v else -1e-300]))
+        import math
+        cands = [v + 1.0, v - 1.0, v + 0.25, v * (1 + 8e-10) if v else 1e-300, v * (1 - 8e-10) if v else -1e-300]
+        cands = [c for c in cands if math.isfinite(c) and c != v] or [v / 2 if v else 1.0]      # (1.79e308 * (1 + 8e-10) is inf)
+        return draw(st.sampled_from(cands))
     if isinstance(v, str):
         import unicodedata
         twin = unicodedata.normalize("NFD", v)
